@@ -46,7 +46,7 @@ func Register(c *Check) {
 // replayAs is a helper to build Replay functions: unmarshal into T and run.
 func replayAs[T any](raw json.RawMessage, f func(k T)) {
 	var k T
-	if err := json.Unmarshal(raw, &k); err != nil {
+	if err := mc.UnmarshalCase(raw, &k); err != nil {
 		panic("replay: cannot decode case: " + err.Error())
 	}
 	f(k)
